@@ -310,7 +310,7 @@ def history_member(payload, tier, seed):
 
     def snap(b, gp, mk=None):
         dec = []
-        X, _ = all_vectors(gp.des_vars, cap=8)
+        X, _ = all_vectors(gp.des_vars, cap=16)
         for x in X:
             for create in (True, False):
                 if mk is not None:
